@@ -222,8 +222,20 @@ fn compare<'i, N: TypedNode<'i, R> + Debug>(
     count_of: &dyn Fn(&str) -> Option<usize>,
     min_gt_max: bool,
 ) {
+    compare_on::<N>(INITS, what, inputs, rep, model, count_of, min_gt_max)
+}
+
+fn compare_on<'i, N: TypedNode<'i, R> + Debug>(
+    inits: &'static [&'static [&'static str]],
+    what: &str,
+    inputs: &'i [String],
+    rep: &mut Report,
+    model: &dyn Fn(&str, &[String]) -> Option<(usize, Option<usize>, Vec<String>)>,
+    count_of: &dyn Fn(&str) -> Option<usize>,
+    min_gt_max: bool,
+) {
     rep.rules += 1;
-    for init in INITS {
+    for init in inits {
         let init_owned: Vec<String> = init.iter().map(|s| s.to_string()).collect();
         for input in inputs {
             rep.cases += 1;
@@ -478,6 +490,75 @@ fn skip_char<const N: usize>(inputs: &[String], rep: &mut Report) {
     );
 }
 
+/// Elements that match without consuming input but make progress on the stack: an unbounded repetition
+/// of them terminates (the stack is finite) and must stay greedy.
+pub struct EPopOnly;
+impl Elem for EPopOnly {
+    type Node<'i> = POP<'i>;
+    const NAME: &'static str = "POP";
+    fn model(input: &str, pos: usize, stk: &[String]) -> Option<(usize, Vec<String>)> {
+        let top = stk.last()?;
+        if input[pos..].starts_with(top.as_str()) {
+            Some((pos + top.len(), stk[..stk.len() - 1].to_vec()))
+        } else {
+            None
+        }
+    }
+}
+static INITS_ZW: &[&[&str]] = &[&[], &[""], &["", ""], &["", "", ""], &["a", "", ""], &["", "a", ""], &["b", "a", "a"], &["", "", "b"]];
+
+fn zero_width_progress(inputs: &[String], rep: &mut Report) {
+    macro_rules! one {
+        ($e:ty, $skip:literal, $min:literal) => {{
+            let what = format!("RepMin<{}, \" \"*, SKIP={}, MIN={}>", <$e as Elem>::NAME, $skip, $min);
+            compare_on::<RepMin<<$e as Elem>::Node<'_>, Ig, $skip, $min>>(
+                INITS_ZW,
+                &what,
+                inputs,
+                rep,
+                &|i, st| rep_model::<$e>(i, st, $skip == 1, $min, None).map(|(e, n, s)| (e, Some(n), s)),
+                &count_top,
+                false,
+            );
+        }};
+    }
+    macro_rules! elem {
+        ($e:ty) => {{
+            one!($e, 0, 0);
+            one!($e, 0, 1);
+            one!($e, 0, 2);
+            one!($e, 0, 3);
+            one!($e, 1, 0);
+            one!($e, 1, 1);
+            one!($e, 1, 2);
+            one!($e, 1, 3);
+            let what = format!("AtomicRepeat<{}>", <$e as Elem>::NAME);
+            compare_on::<AtomicRepeat<<$e as Elem>::Node<'_>>>(
+                INITS_ZW,
+                &what,
+                inputs,
+                rep,
+                &|i, st| rep_model::<$e>(i, st, false, 0, None).map(|(e, n, s)| (e, Some(n), s)),
+                &count_top,
+                false,
+            );
+            // bounded as well, on the deeper stacks
+            let what = format!("RepMinMax<{}, \" \"*, SKIP=1, MIN=1, MAX=3>", <$e as Elem>::NAME);
+            compare_on::<RepMinMax<<$e as Elem>::Node<'_>, Ig, 1, 1, 3>>(
+                INITS_ZW,
+                &what,
+                inputs,
+                rep,
+                &|i, st| rep_model::<$e>(i, st, true, 1, Some(3)).map(|(e, n, s)| (e, Some(n), s)),
+                &count_top,
+                false,
+            );
+        }};
+    }
+    elem!(EDrop);
+    elem!(EPopOnly);
+}
+
 include!("c19_calls.rs");
 include!("c19_calls_zero.rs");
 
@@ -490,6 +571,7 @@ pub fn run(o: &Opts) -> Report {
     let mut rep = Report::default();
     all(&inputs, &mut rep);
     all_zero(&inputs, &mut rep);
+    zero_width_progress(&inputs, &mut rep);
     never_failed::<RepMin<Str<A>, Ig, 0, 0>>("RepMin<\"a\",SKIP=0,0>::parse_with", &inputs, &mut rep);
     never_failed::<RepMin<Str<A>, Ig, 1, 0>>("RepMin<\"a\",SKIP=1,0>::parse_with", &inputs, &mut rep);
     never_failed::<RepMin<<EPop as Elem>::Node<'_>, Ig, 1, 0>>("RepMin<POP \"a\",SKIP=1,0>::parse_with", &inputs, &mut rep);
